@@ -144,6 +144,18 @@ impl Drop for Payload {
         if c != CANARY ^ id as u64 {
             record_fail("canary", format!("destructor of object {id} found canary {c:#x}"));
         }
+        // A destructor is arbitrary user code that takes time: let the other threads run in the
+        // middle of it. The object's bytes must stay this object's until the destructor returns
+        // (no re-use of the slot by a concurrent insert, no release of the slab by a concurrent
+        // shrink_to_fit).
+        loom::thread::yield_now();
+        let (id_now, c_now) = (self.id, self.canary.with(|p| unsafe { *p }));
+        if id_now != id || c_now != 0xDEAD_DEAD_DEAD_DEAD {
+            record_fail(
+                "reused-during-destructor",
+                format!("the memory of object {id} changed while its destructor was still running (id {id_now:#x}, canary {c_now:#x}): slot re-used or released too early"),
+            );
+        }
         let live = LIVE[id].load(O::SeqCst);
         if live != 0 {
             record_fail("destroyed-before-last-handle", format!("object {id} destroyed while {live} handle(s) to it had not begun to drop"));
